@@ -3,6 +3,7 @@ from hypothesis import strategies as st
 
 import gen_codedata
 import gen_source
+import gen_util
 from checks import _prog
 
 ID = "C03"
@@ -45,7 +46,7 @@ def strategy(tier):
     edits = st.tuples(progs, st.sampled_from(EDITS), st.integers(0, 200), st.integers(0, 300), st.integers(0, 9)).map(
         lambda t: {"case": {k: v for k, v in t[0].items() if k != "_label"}, "edit": {"kind": t[1], "k": t[2], "to": t[3]},
                    "pick": t[4], "_label": "override_edits"})
-    return st.one_of(specs, specs, specs, edits)
+    return gen_util.weighted((3, specs), (1, edits))
 
 
 def fixed_cases(tier):
